@@ -8,7 +8,9 @@
 //     procedure over its limit right after an observed reset); multiconn_test.go: a peer with 2-3 simultaneous
 //     connections (after a ban none may remain); conc_test.go: concurrent traffic around the reset ticks;
 //     late_test.go: honest but slow responders - well-formed, solicited responses that arrive after the requester's
-//     timeout, retries or cancellation must leave every score at zero;
+//     timeout, retries or cancellation must leave every score at zero; hitrun_test.go: "hit-and-run" offenders that
+//     close stream and connection right after the offending message - the offence is booked for the IP although the
+//     peer has left (ordering forced through the victim's logger), re-dials refused for the ban, admitted afterwards;
 // (c) sync_test.go: generated valid and invalid sync requests against the real consensus/sync handlers of a harness
 //     consensus node (an invalid request gets the sender banned, a valid one never changes its score).
 package c18
